@@ -183,7 +183,7 @@ RSI_L3 = '''
   __CPROVER_loop_invariant(!g_break_consumed && !g_callee_threw && !g_peek_break)
   __CPROVER_loop_invariant($L1.len <= (1UL << 62))
 '''
-UNITS.append(Unit('dec2.read_string.chunked', ('CdnsDecoder::read_string', None), contract=RSI_C, loops={1: RSI_L1, 2: RSI_L2, 3: RSI_L3}, prelude=P, opaque=OPQ,
+UNITS.append(Unit('dec2.read_string.chunked', ('CdnsDecoder::read_string', None), contract=RSI_C, loops={'1': RSI_L1, '2': RSI_L2, '2.1': RSI_L3}, prelude=P, opaque=OPQ,
                   extra_c=STUBS_RS, arrays_uf=False,
                   stubs=['CdnsDecoder__read_to_buffer', 'CdnsDecoder__peek_type', 'CdnsDecoder__read_cbor_type', 'CdnsDecoder__read_int', 'CdnsDecoder__read_break', 'cstring__\\w+'],
                   setup=SETUP + '  unsigned char a_ct; __CPROVER_assume(a_ct == 0x40 || a_ct == 0x60); unsigned long a_len; _Bool a_indef = 1;\n  g_argsum = 0;\n',
